@@ -522,6 +522,81 @@ def real_streams(ctx):
                     th.join(5)
 
 
+def local_close_wakes_waiters(ctx):
+    """'every request that was blocked waiting fails with EOFError: none hangs' when the LOCAL side closes: a thread of the closing
+    side sits in a request to a peer that stays silent (no time limit), another thread of the same side calls close(). Real
+    SocketStream over a socketpair and real PipeStream pair (the kernel decides whether a sleeping poll() notices). Verdict on state: close() has returned,
+    the stream is closed, yet the waiter is still inside poll(); the wall clock only bounds the observation."""
+    import socket
+    import sys as _sys
+    import threading
+    import time
+    import rpyc
+    from rpyc.core import consts, stream as stream_mod
+    from rpyc.core.channel import Channel
+    for transport, waiter_kind in (("socketpair", "sync-request"), ("socketpair", "serve_all"), ("pipes", "sync-request"), ("pipes", "serve_all")):
+        if transport == "socketpair":
+            s1, s2 = socket.socketpair()
+            vstream = stream_mod.SocketStream(s1)
+        else:
+            vstream, s2 = stream_mod.PipeStream.create_pair()
+        victim = rpyc.VoidService()._connect(Channel(vstream), {"sync_request_timeout": None})
+        out = {}
+
+        def waiter(victim=victim, out=out, waiter_kind=waiter_kind):
+            try:
+                if waiter_kind == "sync-request":
+                    out["value"] = victim.sync_request(consts.HANDLE_PING, "anybody there?")
+                else:
+                    victim.serve_all()
+                    out["value"] = "serve_all returned"
+            except BaseException as e:
+                out["exc"] = e
+        th = threading.Thread(target=waiter, daemon=True, name="rv-local-close-waiter")
+        th.start()
+        wit = dict(family="local-close", transport=transport, waiter=waiter_kind)
+        try:
+            def in_poll():
+                fr = _sys._current_frames().get(th.ident)
+                while fr is not None:
+                    if fr.f_code is stream_mod.Stream.poll.__code__:
+                        return True
+                    fr = fr.f_back
+                return False
+            t0 = time.time()
+            while time.time() - t0 < 10 and not in_poll():
+                time.sleep(0.01)
+            if not in_poll():
+                ctx.inconclusive("local-close: the waiter never reached poll()")
+                continue
+            time.sleep(0.05)
+            victim.close()
+            t_closed = time.time()
+            while time.time() - t_closed < 3 and th.is_alive():
+                time.sleep(0.01)
+            ctx.case(("local-close", transport, waiter_kind), nontrivial=True)
+            ctx.count("local_closes_with_a_blocked_thread")
+            if th.is_alive():
+                if in_poll() and victim.closed:
+                    ctx.violation("C11/real/%s/local-close/blocked-%s-hangs" % (transport, waiter_kind), "close() returned %.1f s ago and the connection reports closed, "
+                                  "but the thread that was blocked in a %s is still asleep inside poll() on the closed stream" % (time.time() - t_closed, waiter_kind), wit)
+                else:
+                    ctx.inconclusive("local-close: waiter still alive in an undecided state")
+                continue
+            if waiter_kind == "sync-request" and not isinstance(out.get("exc"), EOFError):
+                ctx.violation("C11/real/%s/local-close/wrong-outcome" % transport, "the blocked request ended with %r, not EOFError" % (out.get("exc", out.get("value")),), wit)
+        finally:
+            try:
+                s2.close()       # lets a sleeper go, whatever happened
+            except OSError:
+                pass
+            try:
+                victim.close()
+            except BaseException:
+                pass
+            th.join(3)
+
+
 def run(ctx):
     from rv import suiterun
     suiterun.for_check(ctx, PROPERTY, ['cleanups'])
@@ -529,6 +604,7 @@ def run(ctx):
     jobs = []
     told_to_close(ctx)
     if ctx.shard[0] == 0:
+        local_close_wakes_waiters(ctx)
         real_streams(ctx)
         if ctx.enough():
             return
